@@ -2774,6 +2774,8 @@ def allclose_units(actual, desired, rtol=1e-7, atol=0, **kwargs):
     # Create a copy to ensure this function does not alter input arrays
     act = unyt_array(actual)
     des = unyt_array(desired)
+    # a bare atol is documented to be in the units of ``desired``
+    desired_units = des.units
 
     try:
         des = des.in_units(act.units)
@@ -2785,7 +2787,9 @@ def allclose_units(actual, desired, rtol=1e-7, atol=0, **kwargs):
         raise RuntimeError(f"Units of rtol ({rt.units}) are not dimensionless")
 
     if not isinstance(atol, unyt_array):
-        at = unyt_quantity(atol, des.units)
+        # a tolerance is a difference: rescale it, ignoring any unit offset
+        scale = desired_units.base_value / act.units.base_value
+        at = unyt_quantity(atol * scale, act.units)
     else:
         at = atol
 
